@@ -400,7 +400,7 @@ func ReplayAndValidate(c *core.Ctx, g *Gen, p plan, witnesses []Case) (*Outcome,
 			out.Effects[ob.Effect]++
 		}
 		if len(cs.Exp) > 0 && cs.Exp[0].Stage != "outer" {
-			distinct[fmt.Sprintf("%s %s %v", cs.M, cs.Target, cs.W)] = true
+			distinct[fmt.Sprintf("%s %s %v %v", cs.M, cs.Target, cs.W, cs.H)] = true
 		}
 	}
 	out.Nontriv = len(distinct)
@@ -600,7 +600,7 @@ func writeEvidence(c *core.Ctx, plans []plan, outs []*Outcome, violations int, s
 		"rule": "TLC enumerates Methods x (paths of oapi.yaml and of the embedded document + unknown) x spelling sequences x {write on, off} with default headers, plus " +
 			"Methods x paths (documented spelling) x header classes (5 Accept x 4 Content-Type x X-HTTP-Method-Override absent/POST x body present/absent) x {write on, off}, and walks the " +
 			"pipeline stages of the code-shaped spec; every case is sent reps times (each repetition to another server instance) to the real router; " +
-			"evaluations = HTTP requests served; distinct_nontrivial = distinct (method, target, setting) whose request gets past the outer router to the API sub-router " +
+			"evaluations = HTTP requests served; distinct_nontrivial = distinct (method, target, header class, setting) whose request gets past the outer router to the API sub-router " +
 			"(validator / ConfigMiddleware / generated handlers); every case line is validated by HttpGateTrace (pass A monitors, pass B conformance)",
 		"methods": Methods, "spellings": Spellings,
 		"universes": unis, "trace_lines_validated": lines, "drift_lines": drift,
